@@ -119,6 +119,18 @@ def build(seed: int, n: int) -> list[dict[str, Any]]:
 
 
 def stage(ctx: Any, rep: Any, label: str) -> None:
+    # the design first: for every declaration x cluster x review of a small alphabet the expected entry sends a review to the webhook exactly
+    # when the declared criteria hold (MC_Webhooks: Law, LawAsDocumented, NeverTooMuch); the witness NoW1 must fail (subresource "*")
+    from vf import tlc
+    from vf.evidence import MachineryFailure
+    r = tlc.run('MC_Webhooks', 'MC_Webhooks.cfg', workers=16, timeout=1800)
+    rep.add_tlc('MC_Webhooks', r)
+    if not r.ok:
+        rep.violation(f'{label}: Webhooks.tla: the expected entry does not dispatch as declared: {r.violated}', files={'tlc.out': r.out[-50000:]})
+    w = tlc.run('MC_Webhooks', 'MC_Webhooks_w1.cfg', workers=4, timeout=600)
+    rep.add_tlc('MC_Webhooks_w1 (witness)', w)
+    if [v for _k, v in w.violated] != ['NoW1']:
+        raise MachineryFailure(f'the witness configuration MC_Webhooks_w1 should violate NoW1, got {w.violated}')
     recs = build(ctx.seed, 60 if ctx.quick else 1500)
     bad = records.judge('Rec_Webhooks', recs, rep=rep, shard=400)
     rep.evaluations += len(recs); rep.traces += len(recs)
